@@ -4,9 +4,15 @@ namespace Ww.Driver
 open Ww.Model.Sched
 
 def pidOf : String → Option Nat | "A" => some 0 | "B" => some 1 | "C" => some 2 | "D" => some 3 | _ => none
-def kindOf : String → Option Kind
+/-- process kinds as the harness names them: `<kind>[+late][@<pid whose replica serves it>]` — lateness of replies and replica placement are
+    invisible to the model (every process does its own reads; a read takes effect when the store executes it) -/
+def baseKind (s : String) : String := ((s.splitOn "@").headD "" |>.splitOn "+").headD ""
+
+def kindOf' : String → Option Kind
   | "refresh" => some .refresh | "proxy" => some .proxy | "info" => some .info | "logoutlocal" => some .logoutLocal
   | "logout" => some .logout | "frontchannel" => some .frontchannel | "relogin" => some .relogin | _ => none
+
+def kindOf (s : String) : Option Kind := kindOf' (baseKind s)
 
 def splitColon (s : String) : String × String :=
   match s.splitOn ":" with
@@ -42,6 +48,7 @@ def handleSched (l : Line) : List Verdict :=
         match pidOf pidS with
         | none => (acc.1, acc.2 ++ [s!"unknown pid in trace: {e}"])
         | some p =>
+          if label == "REPLY" then acc else      -- delivery of a reply whose read the store executed at the earlier "GET session" step
           let (s', lab) := step acc.1 p
           (s', if lab == label then acc.2 else acc.2 ++ [s!"step of {pidS}: impl '{label}' model '{lab}'"])) (init kinds 0, [])
       let ds := ds.take 3
@@ -63,12 +70,23 @@ def handleSched (l : Line) : List Verdict :=
       procs.any fun pr => let (a, k) := splitColon pr
         (k == "logoutlocal" && s == a ++ "=204") || (k == "logout" && s == a ++ "=302") || (k == "frontchannel" && s == a ++ "=200")
     let logoutOk := statuses.any succ
+    -- a request that STARTED after a logout had answered success and was nevertheless served as authenticated
+    let idxOf := fun (e : String) => (trace.zipIdx.find? (·.1 == e)).map (·.2)
+    let logoutDoneAt : Option Nat := (procs.filterMap fun pr =>
+      let (a, k) := splitColon pr
+      if (k == "logoutlocal" || k == "logout" || k == "frontchannel") && statuses.any (fun s => s.startsWith (a ++ "=") && succ s) then idxOf (a ++ ":DEL session") else none).head?
+    let lateStarters := procs.filter fun pr =>
+      let (a, k) := splitColon pr
+      let bk := baseKind k
+      (bk == "info" || bk == "refresh") && statuses.contains (a ++ "=200") &&
+        (match logoutDoneAt, idxOf (a ++ ":START") with | some d, some st => st > d | _, _ => false)
     let names := presented.filterMap fun s => match s.splitOn "/" with | [n, o] => if o == "fault" then none else some n | _ => none
     let dup := names.length != names.eraseDups.length
     let genOf := fun (s : String) => (s.drop 2).toString
     let viol : List (String × String) :=
       (if logoutOk && exists_ && (atn != "undecryptable" || !(procs.any fun pr => (splitColon pr).2 == "relogin")) then [("C05.recreated_after_del", s!"a logout answered success but the session's entry exists at the end (ttl {ttl})")] else []) ++
       (if logoutOk && followauth then [("C05.authenticated_after_logout", "the old cookie is authenticated after a successful logout")] else []) ++
+      (if !crashed && !lateStarters.isEmpty then [("C05.authenticated_after_logout", s!"{lateStarters} started after the logout had answered success and was answered 200")] else []) ++
       (if !crashed && dup then [("C07.token_presented_twice." ++ store, s!"presented {presented}")] else []) ++
       (if !crashed && maxinflight > 1 then [("C07.concurrent_grants." ++ store, s!"{maxinflight} refresh grants in flight at once")] else []) ++
       (if !crashed && (presented.filter fun s => s.endsWith "/ok").length > 1 then
